@@ -721,8 +721,30 @@ class DimEval:
                 finally:
                     self.busy.discard(v)
             return ("unk", "variable %s" % v.split("#")[0])
+        if k == "Field" and e.get("name") == "dimensions":
+            r_, ch = F.field_chain(e)
+            a = self.arr(r_) if ch == ["dimensions"] else None
+            return ("dimsof", a) if a else ("unk", "dimensions of something else")
         if k in ("Borrow", "Deref", "Use", "Cast"):
             return self.ev(e["e"], depth + 1)
+        if k == "Call" and callee(e) in ("core::ops::deref::Deref::deref", "alloc::vec::Vec::<T, A>::as_slice", "core::convert::AsRef::as_ref", "core::borrow::Borrow::borrow") and e["args"]:
+            return self.ev(e["args"][0], depth + 1)
+        if k == "Call" and callee(e) in ("core::cmp::max_by_key", "core::cmp::min_by_key") and len(e["args"]) == 3 and self.ranks is not None:
+            x, y = self.ev(e["args"][0], depth + 1), self.ev(e["args"][1], depth + 1)
+            clo = strip(e["args"][2])
+            by_len = False
+            if isinstance(clo, dict) and clo.get("k") == "Closure":
+                cb = self.facts.body(clo["closure"])
+                root = strip(self.facts.root(cb)) if cb is not None else None
+                while isinstance(root, dict) and root.get("k") == "Block" and not root["stmts"] and root.get("e") is not None:
+                    root = strip(root["e"])
+                by_len = isinstance(root, dict) and root.get("k") == "Call" and callee(root) in ("alloc::vec::Vec::<T, A>::len", "core::slice::<impl [T]>::len")
+            if x[0] == "dimsof" and y[0] == "dimsof" and by_len and x[1] in self.ranks and y[1] in self.ranks:
+                kx, ky = self.ranks[x[1]], self.ranks[y[1]]
+                if callee(e).endswith("max_by_key"):
+                    return y if ky >= kx else x      # the second argument on a tie
+                return x if kx <= ky else y          # min_by_key: the first argument on a tie
+            return ("unk", "max_by_key / min_by_key on something else")
         if k == "Block" and e.get("e") is not None:
             lets2 = dict(self.lets)
             for s in e["stmts"]:
@@ -854,6 +876,45 @@ def r38_matmul_shapes(facts):
                 els = vec_literal_elems(n["args"][0])
                 if els:
                     order = [names.get(F.var_of(x)) for x in els]
+        # the target dimensions the operands are broadcast to (and the result's leading dimensions come from): the pairwise
+        # broadcast of both operands' leading dimensions, not one operand's
+        for n in walk(facts.root(b)):
+            if n.get("k") == "Call" and resolved(n) == SLICED_OP and len(n["args"]) >= 7:
+                chooser = {}
+                other = None
+                for ra, rb in itertools.product((1, 2, 3, 4), repeat=2):
+                    de0 = DimEval(facts, lets, {flagv["A"]: False, flagv["B"]: False}, names, ranks={"A": ra, "B": rb})
+                    v = de0.ev(n["args"][3])
+                    if v[0] == "dimsof":
+                        chooser[(ra, rb)] = v[1]
+                    else:
+                        other = v
+                inst = "leading-dims:%s" % name
+                if other is not None or not chooser:
+                    tgt = strip(n["args"][3])
+                    hops = 0
+                    while isinstance(tgt, dict) and tgt.get("k") in ("VarRef", "UpvarRef") and tgt["v"] in lets and hops < 4:
+                        tgt = peel(lets[tgt["v"]])
+                        hops += 1
+                    calls_bcast = any(x.get("k") == "Call" and (x.get("callee") or {}).get("resolved_local") and (facts.body(resolved(x)) or {}).get("inputs") == ["&[usize]", "&[usize]"]
+                                      for x in walk(tgt)) if isinstance(tgt, dict) else False
+                    if calls_bcast:
+                        c.ok(inst, F.loc(b, n), "the operands are broadcast to dimensions computed by the broadcast-shape function")
+                    else:
+                        c.unk(inst, F.loc(b, n), "how the broadcast target dimensions of the product are obtained is not recognised (%s)" % (other[1] if other and len(other) > 1 else "?"))
+                else:
+                    if all((x == "A") == (ra >= rb) for (ra, rb), x in chooser.items()):
+                        how, tie = "the operand of higher rank, the left one on a tie", "A-on-tie"
+                    elif all((x == "A") == (ra > rb) for (ra, rb), x in chooser.items()):
+                        how, tie = "the operand of higher rank, the right one on a tie", "B-on-tie"
+                    else:
+                        how = "one operand chosen by rank (%s)" % "".join(chooser[k_] for k_ in sorted(chooser))
+                        tie = "".join(chooser[k_] for k_ in sorted(chooser))
+                    lose = "B" if tie == "A-on-tie" else "A"
+                    c.bad(inst + "#" + tie, F.loc(b, n),
+                          "the dimensions the operands are broadcast to (and the result's leading dimensions) are copied from %s instead of being the pairwise "
+                          "broadcast of both operands' leading dimensions: a unit leading dimension of the chosen operand against a larger one of the other is refused "
+                          "(\"unable to broadcast\") although the shapes are compatible, e.g. equal ranks with %s carrying the real batch" % (how, lose))
         for ta, tb in itertools.product((False, True), repeat=2):
             tag = "shapes:%s:ta=%s,tb=%s" % (name, "T" if ta else "F", "T" if tb else "F")
             de = DimEval(facts, lets, {flagv["A"]: ta, flagv["B"]: tb}, names)
